@@ -1,2 +1,7 @@
-import Blackbird
-#print axioms Blackbird.dictGet
+import Blackbird.Props.C01
+#print axioms Blackbird.C01_symbolic_argument_exact
+#print axioms Blackbird.C01_symbolic_argument_parameters
+#print axioms Blackbird.C01_reload_same
+#print axioms Blackbird.C01_every_generation
+#print axioms Blackbird.C01_script_fixpoint
+#print axioms Blackbird.C01_text_parses
